@@ -35,7 +35,7 @@ static void prop(Tape &t, Ctx &c) {
         rc = psPkcs12ParseMem(NULL, &cert, &key, in.p, (int32) in.n, 0, ip, il, mpass ? mp : ip, mpass ? ml : il);
         if (rc >= 0) {
             for (psX509Cert_t *x = cert; x; x = x->next) {
-                VF_CHECK(++ncerts < 10000, "walker-list-cycle", "cert chain does not end");
+                VF_CHECK((size_t) ++ncerts <= 2 * in.n + 2, "walker-list-cycle", "cert chain has more elements than the input has bytes");
                 if (x->parseStatus == PS_X509_PARSE_SUCCESS) (void) walk_cert(x, 0);
             }
             Dig d; walk_pubkey(&key, d); ktype = key.type;
